@@ -1255,7 +1255,7 @@ func c23Run(t *rapid.T, rec *ev.Recorder) {
 	ops := []string{
 		"podAdd", "podAdd", "cniAdd", "cniAdd", "cniAdd", "podReport", "podDel", "podDel", "podDel", "podResched", "podFinish",
 		"cacheSync", "nodeAdd", "nodeAdd", "nodeDel", "calicoNodeDel", "tunnelAdd", "vmAlloc", "vmToggle", "vmiToggle", "oddAlloc",
-		"seqBump", "blockAdd", "blockUnaffine", "blockDel", "lateRelease", "vmAttrRewrite", "podRecreateForLeak", "podRecreateForLeak", "restartRace", "restartRace",
+		"seqBump", "blockAdd", "blockUnaffine", "blockDel", "lateRelease", "vmAttrRewrite", "podRecreateForLeak", "podRecreateForLeak", "restartRace", "restartRace", "restartRace", "restartRace",
 		"deliver", "deliver", "deliver", "tick", "tick", "tick", "sync", "sync", "sync", "sync", "sync", "inSync",
 	}
 	nOps := rapid.IntRange(8, ev.Scale(45, 90)).Draw(t, "nOps")
